@@ -24,6 +24,13 @@ PAIRS = [
     ("while _a_ > 0:\n    _a_ = _a_ - 1", 8), ("while ___:\n    _a_ = _b_ - ___", 8), ("while x > ___:\n    ___", 8),
     ("_a_ = 0\n_b_ = 0", 9), ("_a_ = ___\n___(_a_)", 9), ("_a_ = 1\n_a_ = 2", 9), ("___\n_f_(_a_)", 9), ("x = 1\nprint(x)", 9),
     ("def _f_(_p_):\n    return _p_ + 1", 10), ("def ___(___):\n    return ___", 10), ("return _a_ + 0", 10),
+    # patterns against shapes of ANOTHER kind (nothing or only the generic part may match)
+    ("_a_ = _b_ + 1", 1), ("_a_ = _b_ * 2", 0), ("_a_ = _a_ + ___", 2), ("_a_ = _b_ - _c_", 0), ("_a_ + _b_", 1),
+    ("_a_ * _b_", 5), ("_a_ += 1", 0), ("while _a_ > 0:\n    ___", 4), ("if _a_ < 0:\n    ___", 8), ("_f_(_x_)", 7),
+    ("_a_ = 0\n_a_ = _a_ + 1\n___(_a_)", 9), ("_a_ = ___\n_b_ = ___\n_b_(_a_)", 9), ("___ = ___\n_f_(_x_)", 9),
+    # three pattern siblings over four student siblings: a candidate rejected for a _name_ conflict must not disturb the order
+    ("_x_ = ___\n_x_ = _x_ + ___\n___(_x_)", 12), ("_x_ = ___\n___(_x_)\n_x_ = _x_ + ___", 12), ("_x_ = ___\n_y_ = _y_ + ___\n___(_x_)", 12),
+    ("f(_a_, _a_ + ___, g(_a_))", 13), ("f(_a_, g(_a_), _a_ + ___)", 13), ("f(___, _b_ + ___, ___, _b_ + ___)", 13),
 ]
 
 
@@ -40,6 +47,24 @@ def sound(n1: str, n2: str, n3: str, c1: Const, c2: Const) -> bool:
     """
     if tick():
         return True
+    return _sound(n1, n2, n3, c1, c2)
+
+
+def sound_names(n1: str, n2: str, n3: str) -> bool:
+    """
+    The same obligation for the pairs over the four-sibling / four-argument shapes (index >= 57), whose patterns hold no
+    constants: only the identifiers are symbolic (which of them coincide decides which candidates conflict); the two
+    constants are the concrete 1 and 2.
+
+    pre: len(n1) <= 2 and len(n2) <= 2 and len(n3) <= 2
+    post: _
+    """
+    if tick():
+        return True
+    return _sound(n1, n2, n3, 1, 2)
+
+
+def _sound(n1, n2, n3, c1, c2):
     k = int(PART) if PART else 0
     pattern, si = PAIRS[k]
     if excluded("C10.sound", k=k, n1=n1, n2=n2, n3=n3, c1=c1, c2=c2):
@@ -54,8 +79,12 @@ def sound(n1: str, n2: str, n3: str, c1: Const, c2: Const) -> bool:
     pat = ast.parse(pattern)
     names = {n.id for n in ast.walk(pat) if isinstance(n, ast.Name) and placeholder_kind(n) is None}
     consts = [n.value for n in ast.walk(pat) if isinstance(n, ast.Constant)]
-    student_consts = [c1, c2]
-    missing_name = any((nm != n1 and nm != n2 and nm != n3) for nm in names)
+    student_consts = [n.value for n in ast.walk(tree) if isinstance(n, ast.Constant)]
+    student_names = ([n.id for n in ast.walk(tree) if isinstance(n, ast.Name)]
+                     + [n.attr for n in ast.walk(tree) if isinstance(n, ast.Attribute)]
+                     + [n.arg for n in ast.walk(tree) if isinstance(n, ast.arg)]
+                     + [n.name for n in ast.walk(tree) if isinstance(n, ast.FunctionDef)])
+    missing_name = any(all(nm != x for x in student_names) for nm in names)
     missing_const = any(not any(type(c) is type(s) and c == s for s in student_consts) for c in consts)
     if (missing_name or missing_const) and matches:
         return False
